@@ -29,6 +29,9 @@ type Case struct {
 	// Mirror (fetch): per ref, a second, never '+'-forced refspec for the same remote ref onto
 	// refs/mirror/<n>, listed right after the first one
 	Mirror []bool `json:"mirror,omitempty"`
+	// Peel (merge): the branch to merge into is written with a navigation suffix ("^", "~1", "~2"),
+	// which the command accepts; only the general invariants are checked then
+	Peel string `json:"peel,omitempty"`
 }
 
 var sub = evid.Register("refmove", run)
@@ -49,6 +52,9 @@ func TestPropRefMoves(t *testing.T) {
 			}
 			c.PushDst = append(c.PushDst, d)
 			c.Mirror = append(c.Mirror, rapid.IntRange(0, 3).Draw(t, "mirror") == 0)
+		}
+		if c.Op == "merge" && rapid.IntRange(0, 3).Draw(t, "peeled") == 0 {
+			c.Peel = rapid.SampledFrom([]string{"^", "~1", "~2", "^^"}).Draw(t, "peel")
 		}
 		sub.Check(t, c)
 	})
@@ -451,14 +457,14 @@ func run(c Case) (o evid.Outcome, err error) {
 		}
 		var args []string
 		if c.Op == "merge" {
-			args = []string{"merge", main, other, "-n", "1"}
+			args = []string{"merge", main + c.Peel, other, "-n", "1"}
 		} else {
 			args = []string{"pull", main, "origin", fmt.Sprintf("+refs/heads/%s:refs/remotes/origin/%s", main, main), "-n", "1"}
 		}
 		if c.FF != "" {
 			args = append(args, c.FF)
 		}
-		out, cerr := w.Repo.Run(args...)
+		out, cerr := runGuarded(w, args...)
 		after, err := w.LocalRefs()
 		if err != nil {
 			return o, fmt.Errorf("local repository unreadable after %v: %v", args, err)
@@ -483,6 +489,13 @@ func run(c Case) (o evid.Outcome, err error) {
 		candidates++
 		desc := fmt.Sprintf("`wrgl %s` (main=c%d other=c%d)", strings.Join(args, " "), mi, oi)
 		switch {
+		case c.Peel != "":
+			// "BRANCH^" as the branch to merge into: what the command makes of it is its business
+			// (rejecting it would be the obvious answer); the invariants below apply whatever it does
+			o.Class("peeled-branch-argument")
+			if cerr != nil {
+				o.Class("command-failed")
+			}
 		case mi == oi || otherAnc:
 			// nothing to merge: the branch keeps its value
 			// (with --no-ff wrgl records a merge commit on top of the branch even then; the statement
@@ -546,7 +559,10 @@ func run(c Case) (o evid.Outcome, err error) {
 				continue
 			}
 			if !ancestorInStore(ldb, ov, v) {
-				return o, fmt.Errorf("%s: branch %q moved from c%d to a commit that does not descend from it", desc, name, w.NodeOf(ov))
+				return o, fmt.Errorf("%s: branch %q moved from c%d to c%d, a commit that does not descend from it (command error: %v)", desc, name, w.NodeOf(ov), w.NodeOf(v), cerr)
+			}
+			if err := logged(after, before, name, ov, v); err != nil {
+				return o, fmt.Errorf("%s: %v", desc, err)
 			}
 		}
 		if c.Op == "merge" {
@@ -577,4 +593,15 @@ func parents(db objects.Store, sum []byte) int {
 		return -1
 	}
 	return len(c.Parents)
+}
+
+// runGuarded turns a panic of the command into an error (a crash is not C10's subject; the state
+// it leaves behind is).
+func runGuarded(w *syncx.World, args ...string) (out string, err error) {
+	defer func() {
+		if r := recover(); r != nil {
+			err = fmt.Errorf("command panicked: %v", r)
+		}
+	}()
+	return w.Repo.Run(args...)
 }
